@@ -8,7 +8,7 @@ use bed_utils::bed::{BEDLike, GenomicRange};
 use bed_utils::coverage::{BinnedCoverage, SparseBinnedCoverage};
 
 fn enc(r: &Rec, bin: u64) -> Vec<String> { let mut w = W::new(); r.put(&mut w); w.n(bin); w.0 }
-fn dec(t: &[String]) -> Option<(Rec, u64)> { let mut r = R::new(t); Some((Rec::get(&mut r)?, r.u64()?)) }
+fn dec(t: &[String]) -> Option<(Rec, u64)> { let (t, _) = split_flavour(t); let mut r = R::new(t); Some((Rec::get(&mut r)?, r.u64()?)) }
 
 fn guarded(f: impl FnOnce() -> Vec<GenomicRange>) -> String {
     match std::panic::catch_unwind(std::panic::AssertUnwindSafe(f)) {
@@ -19,9 +19,10 @@ fn guarded(f: impl FnOnce() -> Vec<GenomicRange>) -> String {
 
 fn exec(t: &[String]) -> Option<String> {
     let (r, bin) = dec(t)?;
+    let fl = split_flavour(t).1;
     let g = r.gr();
-    let a = guarded(|| g.split_by_len(bin).collect());
-    let b = guarded(|| g.rsplit_by_len(bin).collect());
+    // the tiling is a function of (chrom, start, end, bin) for every implementor of BEDLike, whatever its other fields hold
+    let (a, b) = crate::with_bedlike!(fl, &r, |x| (guarded(|| x.split_by_len(bin).collect()), guarded(|| x.rsplit_by_len(bin).collect())));
     // the coverage counters allocate one counter per bin: only build them for small tilings
     let nb = (r.end - r.start).div_ceil(bin.max(1));
     let (c, d) = if nb <= 100_000 {
@@ -44,12 +45,17 @@ fn shrink(t: &[String]) -> Vec<Vec<String>> {
     for e in shrink_u64(r.end) { out.push((Rec { end: e, ..r.clone() }, bin)); }
     for b in shrink_u64(bin) { out.push((r.clone(), b)); }
     if r.chrom != "c" { out.push((Rec { chrom: "c".into(), ..r.clone() }, bin)); }
-    out.into_iter().filter(|(r, b)| valid(r, *b)).map(|(r, b)| enc(&r, b)).collect()
+    let fl = split_flavour(t).1;
+    let mut v: Vec<Vec<String>> = vec![];
+    if fl != 0 { v.push(enc(&r, bin)); }
+    v.extend(out.into_iter().filter(|(r, b)| valid(r, *b)).map(|(r, b)| push_flavour(enc(&r, b), fl)));
+    v
 }
 
 fn gen(rng: &mut Rng, tier: Tier) -> Vec<Case> {
     let mut out = vec![];
-    let mut push = |stream: &str, r: Rec, bin: u64| { if valid(&r, bin) { out.push(Case::new(stream, enc(&r, bin))); } };
+    let mut frng = rng.fork();
+    let mut push = |stream: &str, r: Rec, bin: u64| { if valid(&r, bin) { let f = gen_flavour(&mut frng); out.push(Case::new(stream, push_flavour(enc(&r, bin), f))); } };
     // boundary: small exhaustive grid, at offset 0 and just below u64::MAX
     let lim = match tier { Tier::Quick => 9, Tier::Thorough => 24 };
     for off in [0u64, 3, u64::MAX - 40] {
@@ -78,7 +84,7 @@ pub fn prop() -> PropDef {
     PropDef {
         id: "C14",
         rule: "corpus, then an exhaustive grid (start in {0,1,5}+{0,3,u64::MAX-40}, length 0..9 (thorough 0..24), bin 1..length+2 and bins 2^63, u64::MAX-1, u64::MAX), records ending at u64::MAX, then random records (start up to u64::MAX, length up to 5e4, bins 1, divisors, non-divisors, = length, > length, ~u64::MAX). Non-trivial: >= 2 pieces or bin > length. Distinct = distinct (record, bin).",
-        observable: "BEDLike::split_by_len, BEDLike::rsplit_by_len, BinnedCoverage::regions, SparseBinnedCoverage::regions (piece lists, or panic)",
+        observable: "BEDLike::split_by_len, BEDLike::rsplit_by_len, BinnedCoverage::regions, SparseBinnedCoverage::regions (piece lists, or panic); the record is carried by every BEDLike implementor (GenomicRange, BED<3..6,12>, NarrowPeak, BroadPeak, BedGraph) with strand none/+/-, name and score present or absent",
         gen, exec, shrink, child: None,
     }
 }
